@@ -73,6 +73,11 @@ OptFlag(field, mask, c) == [k |-> "optflag", field |-> field, mask |-> mask, c |
 CtxSw(up, field, ch, dflt) == [k |-> "ctxswitch", up |-> up, field |-> field, ch |-> ch, dflt |-> dflt]
 K(key, t) == [key |-> key, t |-> t]
 
+\* Sel(up, c): an element whose layout is chosen by the field "sel" `up` frames up (or of the outermost frame)
+Sel(up, c) == CtxSw(up, "sel", <<K(0, U8), K(1, c)>>, <<>>)
+\* the element X inside a template with a selector, inside a template with a same-named decoy
+Decoy(X) == Tmpl(<<F("sel", U8), F("mid", Tmpl(<<F("sel", U8), F("body", X)>>, FALSE))>>, FALSE)
+
 Con(name, c) ==
   CASE name = "CollP" -> Coll("prefix", U8, 0, c)
     [] name = "CollP16" -> Coll("prefix", U16, 0, c)
@@ -102,6 +107,25 @@ Con(name, c) ==
     [] name = "TmplCtx" -> Tmpl(<<F("sel", U8), F("body", CtxSw(0, "sel", <<K(0, c), K(1, U16)>>, <<>>))>>, FALSE)
     [] name = "TmplCtxUp" -> Tmpl(<<F("sel", U8), F("inner", Tup(<<CtxSw(1, "sel", <<K(1, c)>>, <<U8>>), U8>>))>>, FALSE)
     [] name = "Adapt" -> [k |-> "adapter", c |-> c]
+    \* context-dependent element under every container kind, inside a template whose ENCLOSING template has a
+    \* same-named decoy field: a frame pushed (or not) differently on read and on write picks the wrong option
+    [] name = "CtxCollP" -> Decoy(Coll("prefix", U8, 0, Sel(1, c)))
+    [] name = "CtxCollF" -> Decoy(Coll("fixed", U8, 2, Sel(1, c)))
+    [] name = "CtxCollG" -> Decoy(Coll("greedy", U8, 0, Sel(1, c)))
+    [] name = "CtxTup" -> Decoy(Tup(<<Sel(1, c), U8>>))
+    [] name = "CtxTmpl" -> Decoy(Tmpl(<<F("x", Sel(1, c))>>, FALSE))
+    [] name = "CtxRootG" -> Decoy(Coll("greedy", U8, 0, Sel(-1, c)))
+    [] name = "CtxRootTB" -> Decoy(TB("prefix", U8, 0, <<>>, Sel(-1, c), FALSE, TRUE))
+    [] name = "CtxOptP" -> Decoy([k |-> "optprefix", c |-> Sel(0, c)])
+    [] name = "CtxIfP" -> Decoy([k |-> "ifpresent", c |-> Sel(0, c)])
+    [] name = "CtxTBP" -> Decoy(TB("prefix", U16, 0, <<>>, Sel(0, c), FALSE, TRUE))
+    [] name = "CtxTBG" -> Decoy(TB("greedy", U8, 0, <<>>, Coll("greedy", U8, 0, Sel(1, c)), TRUE, TRUE))
+    [] name = "CtxTBT" -> Decoy(TB("term", U8, 0, <<0>>, Sel(0, c), FALSE, TRUE))
+    [] name = "CtxEnum" -> Decoy([k |-> "enumswitch", e |-> U8, ch |-> <<K(0, Sel(0, c)), K(1, U16)>>])
+    [] name = "CtxFlag" -> Decoy([k |-> "flagswitch", f |-> U8,
+                                  ch |-> <<[bit |-> 1, name |-> "A", t |-> Sel(0, c)], [bit |-> 4, name |-> "C", t |-> U16]>>])
+    [] name = "CtxAdapt" -> Decoy([k |-> "adapter", c |-> Sel(0, c)])
+    [] name = "CtxOptF" -> Decoy(Tmpl(<<F("Flags", U8), F("a", OptFlag("Flags", 1, Coll("prefix", U8, 0, Sel(2, c))))>>, FALSE))
     \* ill-formed programs: no value is in their domain; Enc must say so and Dec must stay total
     [] name = "CollP32" -> Coll("prefix", U32, 0, c)
     [] name = "MisOpt" -> OptFlag("x", 1, c)
